@@ -98,10 +98,11 @@ type vCtrTrack struct {
 }
 
 type vMonitor struct {
-	sc    *vScenario
-	t0    time.Time
-	queue *test.Queue
-	sd    *test.StubDriver
+	wantPrio map[string]int64 // API-side priority last set by a scenario event (see reassertPriorities)
+	sc       *vScenario
+	t0       time.Time
+	queue    *test.Queue
+	sd       *test.StubDriver
 
 	mgmtMu sync.Mutex // serialises management-API calls with StartContainer decisions
 	qmu    sync.Mutex // serialises queue writes by the dispatcher / by the API-side events
@@ -524,6 +525,15 @@ func (m *vMonitor) detach(info *vVMInfo, gen int, inner test.SSHExecFunc, env ma
 	uuid := vUUIDRe.FindString(cmd)
 	stdinData, _ := ioutil.ReadAll(stdin)
 	vmid := string(info.id)
+	// test.StubVM never clears its killing[uuid] flag: once a container's
+	// process has been signalled on a VM, every later crunch-run for the same
+	// container on that VM exits before it sets state=Running, for ever. A
+	// real crunch-run has no such memory. Without this, a container whose
+	// first process was killed (e.g. while it was re-queued) and which is
+	// then started again on the same, only remaining instance loops
+	// start -> early exit -> requeue thousands of times (seen as "still
+	// progressing at the deadline" by the lead).
+	info.svm.VerifClearKilling(uuid)
 
 	// queue state, atomically w.r.t. dispatcher/API writes
 	m.qmu.Lock()
@@ -774,9 +784,41 @@ func (m *vMonitor) apiCancel(uuid string) {
 	m.mu.Unlock()
 }
 
+// reassertPriorities re-applies API-side priority changes that the stub lost:
+// the fake crunch-run of test.StubVM fetches the container record when
+// "--detach" arrives and later writes the whole record back with
+// queue.Notify(), which silently undoes a priority change made in between.
+// A real API server keeps the priority. (lead: this produced a false STUCK
+// report - a "hang" container whose priority-0 event was overwritten had no
+// reason to be killed.)
+func (m *vMonitor) reassertPriorities() {
+	m.qmu.Lock()
+	defer m.qmu.Unlock()
+	m.mu.Lock()
+	want := make(map[string]int64, len(m.wantPrio))
+	for u, p := range m.wantPrio {
+		want[u] = p
+	}
+	m.mu.Unlock()
+	for u, p := range want {
+		if c, ok := m.queue.VerifGetDB(u); ok && c.Priority != p && c.State != "Complete" && c.State != "Cancelled" {
+			ok := m.queue.VerifSetPriority(u, p)
+			m.mu.Lock()
+			m.ev(m.curGen, "api-prio-reasserted", "", u, fmt.Sprintf("prio=%d (stub had reverted it to %d) ok=%v state=%s", p, c.Priority, ok, c.State))
+			m.mu.Unlock()
+		}
+	}
+}
+
 func (m *vMonitor) apiPriority(uuid string, prio int64) {
 	m.qmu.Lock()
 	defer m.qmu.Unlock()
+	m.mu.Lock()
+	if m.wantPrio == nil {
+		m.wantPrio = map[string]int64{}
+	}
+	m.wantPrio[uuid] = prio
+	m.mu.Unlock()
 	ok := m.queue.VerifSetPriority(uuid, prio)
 	st, _ := m.dbState(uuid)
 	m.mu.Lock()
